@@ -55,7 +55,7 @@ type ScriptEntry struct {
 
 // FaultSpec: the N-th store operation of the case (counted from 0 over the whole case) fails.
 // Kind: "err" (the operation returns an error; a Set / Delete is not performed), "garbage" (a Get returns bytes that do
-// not decode), "null" (a Get returns the JSON text [null]), "trunc" (a Get returns the first half of the stored bytes).
+// not decode), "null" (a Get returns the JSON text [null]), "trunc" (a Get returns the first half of the stored bytes), "dmg<n>" (a Get returns the stored bytes with one byte replaced or deleted).
 type FaultSpec struct {
 	N    int
 	Kind string
@@ -140,6 +140,39 @@ func faultHook(plan []FaultSpec, inner func() driver.Conn) func(op, key string, 
 			return &faultAction{Data: []byte("\x00\xffnot a stored value\n\n{")}
 		case kind == "null":
 			return &faultAction{Data: []byte("[null]")}
+		case strings.HasPrefix(kind, "dmg"):
+			// one byte of the stored value damaged: replaced or deleted, mostly a structural byte (TAB, LF, CR, ':', ' ')
+			// of the first two lines
+			data, err := inner().Get(key)
+			if err != nil || len(data) == 0 {
+				return &faultAction{Data: data, Err: err}
+			}
+			sel, _ := strconv.Atoi(kind[3:])
+			var structural []int
+			lines := 0
+			for i, b := range data {
+				if b == '\t' || b == '\n' || b == '\r' || b == ':' || b == ' ' || b == '/' {
+					structural = append(structural, i)
+				}
+				if b == '\n' {
+					lines++
+					if lines == 2 {
+						break
+					}
+				}
+			}
+			pos := (sel / 64) % len(data)
+			if len(structural) > 0 && sel%4 != 0 {
+				pos = structural[(sel/64)%len(structural)]
+			}
+			out := append([]byte(nil), data...)
+			repl := []byte{' ', '\t', '\n', 'x', 0, ':'}
+			if w := (sel / 4) % 8; w < len(repl) {
+				out[pos] = repl[w]
+			} else {
+				out = append(out[:pos], out[pos+1:]...)
+			}
+			return &faultAction{Data: out}
 		default: // trunc
 			data, err := inner().Get(key)
 			if err != nil {
